@@ -139,6 +139,8 @@ func main() {
 		onlyKey  = flag.String("key", "", "only report obligations whose key contains this string")
 		noEvid   = flag.Bool("no-evidence", false, "do not write evidence files (used by the sensitivity suite)")
 		list     = flag.Bool("list", false, "list properties and rules")
+		dumpSch  = flag.String("dump-schema", "", "write the reference schema of the current /repo to this file and exit")
+		showAl   = flag.Bool("alignment", false, "print how the current tree was aligned with the reference schema and exit")
 		dump     = flag.Bool("dump", false, "driver: print all obligations, not only the non-discharged")
 	)
 	flag.Parse()
@@ -148,6 +150,28 @@ func main() {
 			for _, ru := range properties[id].Rules {
 				fmt.Printf("%s  %-8s floor=%-3d %s\n", id, ru.ID, ru.Floor, firstLine(ru.Text))
 			}
+		}
+		return
+	}
+	if *dumpSch != "" || *showAl {
+		p, err := Load(Config{Tags: *tags, GOARCH: *goarch})
+		if err != nil {
+			fmt.Fprintln(os.Stderr, "load:", err)
+			os.Exit(2)
+		}
+		if *dumpSch != "" {
+			if err := dumpSchema(p, *dumpSch); err != nil {
+				fmt.Fprintln(os.Stderr, err)
+				os.Exit(2)
+			}
+			fmt.Printf("wrote %s\n", *dumpSch)
+			return
+		}
+		if p.al == nil || len(p.al.notes) == 0 {
+			fmt.Println("the current tree uses the reference names everywhere")
+		}
+		for _, n := range p.al.notes {
+			fmt.Println(n)
 		}
 		return
 	}
